@@ -78,6 +78,11 @@ add("C14", MC,
     "Trusted: refimpl::{frames,settings,qpack,varint}. A write cut short by connection death or still in flight at quiescence may end inside a frame. Programs stop using a stream at its first error.",
     "exhaustive enumeration of API programs x write-acceptance schedules (deviation-bounded DFS) on the implementation, reference-parser oracle on the wire logs", "dfs", "DESIGN.md 5/C14")
 
+add("C08", MC,
+    "Explicit enumeration (no deduplication) of every server history up to length 6 (7) over {arrivals of 4 request streams in any order, accept, shutdown(n) for 4 values of n, serve} executed on a real server connection over simnet with a drain phase, with the GOAWAY identifiers read off the control-stream wire log by an independent parser and rejections read off the transport; and of every client history of up to 3 received GOAWAY identifiers over 8 values interleaved with send_request attempts, with the grease stream granted or starved. Invariants checked on every history.",
+    "Trusted: refimpl::frames, simnet. The server application is a single task, so there is no schedule dimension on the server side; the client driver is given time to consume each GOAWAY before the next event.",
+    "explicit-state enumeration of operation histories on the implementation (history is the state), invariant oracle on wire log and transport", "bfs", "DESIGN.md 5/C08")
+
 ALL = [f"C{i:02d}" for i in range(1, 21)]
 pending_reason = "check not built yet in this revision of /verif (planned, see DESIGN.md section 5)"
 manifest = dict(
